@@ -431,6 +431,9 @@ type Property struct {
 	Child func(args []string) int
 }
 
+// ApplyVariant is installed by the props package (fresh-process variant preludes).
+var ApplyVariant func(variant string)
+
 var Registry = map[string]*Property{}
 
 func Register(p *Property) { Registry[p.ID] = p }
